@@ -48,7 +48,8 @@ def gen_case(rng, idx, tier):
         nt = "float" if flt else "frac"
         src = "enumerated"
     else:
-        cur = gen.curve(rng, big=(rng.random() < 0.05))
+        deep = tier == "thorough" and rng.random() < 0.3  # beyond the quick bounds: degree up to 6, up to 7 interior knots
+        cur = gen.curve(rng, big=(rng.random() < 0.05), pmax=6 if deep else 4, nintmax=7 if deep else 4)
         nt = gen.numtype(rng, cur["U"])
         if rng.random() < 0.15:
             U = gen.integer_kv(rng)
